@@ -102,14 +102,30 @@ fn project(book: &umya::Spreadsheet) -> Value {
             s["dims"] = dims[i].clone();
         }
     }
+    v["book"] = book_level(book);
     v
+}
+
+/// workbook-level records the library models: document properties, theme, workbook view, macro payload
+fn book_level(book: &umya::Spreadsheet) -> Value {
+    // through the getters: an absent element and an empty one are the same property value
+    let p = book.get_properties();
+    let custom: Vec<String> = p.get_custom_properties().get_custom_document_property_list().iter().map(|c| format!("{}={}|{}", c.get_name(), c.get_value(), c.get_link_target())).collect();
+    let props = json!([p.get_creator(), p.get_last_modified_by(), p.get_created(), p.get_modified(), p.get_title(), p.get_description(), p.get_subject(), p.get_keywords(), p.get_revision(), p.get_category(), p.get_version(), p.get_manager(), p.get_company(), custom]);
+    json!({
+        "properties": props,
+        "theme": world::h_bytes(format!("{:?}", book.get_theme()).as_bytes()),
+        "view": format!("{:?}", book.get_workbook_view()),
+        "macros": book.get_macros_code().map(world::h_bytes),
+        "code_name": book.get_code_name(),
+    })
 }
 
 /// deep projection for the fixed-point comparison between generations
 fn project_deep(book: &umya::Spreadsheet) -> Value {
     let sheets: Vec<Value> = book.get_sheet_collection_no_check().iter().map(world::dump_sheet_deep).collect();
     let a = annot::annot_dump(book);
-    json!({"sheets": sheets, "annot": a})
+    json!({"sheets": sheets, "annot": a, "book": book_level(book)})
 }
 
 struct Gen {
